@@ -131,6 +131,16 @@ Proof. exact parse_error_located. Qed.
 Theorem C01_keywords_documented : keywords = keywords_ref.
 Proof. exact keywords_documented. Qed.
 
+(* T tie: the character classes (isLetter, isDigit, isDecimalDigit, isHexDigit,
+   isLongStringDelimiter) and the loop conditions of skipWhitespace, readString and the identifier
+   tail, regenerated from the Go boolean expressions, are the documented ones for EVERY rune. The
+   model is built on the regenerated functions. *)
+Theorem C01_char_classes_documented : forall r : rune,
+  is_letter r = ref_letter r /\ is_decimal r = ref_decimal r /\ is_digit r = ref_digit r /\
+  is_hex r = ref_hex r /\ is_delim r = ref_delim r /\ is_space r = ref_space r /\
+  in_string r = ref_in_string r /\ is_ident_cont r = ref_ident_cont r.
+Proof. exact char_classes_documented. Qed.
+
 Theorem C01_token_types_distinct : nodup_b all_types = true /\ str_in [] all_types = false.
 Proof. exact types_distinct. Qed.
 
@@ -153,4 +163,5 @@ Print Assumptions C01_pump_tokens_located.
 Print Assumptions C01_parse_eof_located.
 Print Assumptions C01_parse_error_located.
 Print Assumptions C01_keywords_documented.
+Print Assumptions C01_char_classes_documented.
 Print Assumptions C01_token_types_distinct.
